@@ -451,14 +451,26 @@ func runMemFile(c Case) pbt.Verdict {
 	if err != nil {
 		return pbt.Verdict{Discard: true}
 	}
-	ms, err := memory.NewStore(&memory.Config{GOMEMLIMITBytes: math.MaxInt64, CapacityBytes: 1 << 20}, tally.NoopScope)
+	// The blob under test is created in a store that is full of an older, completed blob of
+	// non-zero bytes, so its creation evicts that blob: a buffer of a real store has a past,
+	// and whatever the store does with the memory of evicted blobs must not show through.
+	storeCap := uint64(c.Cap)
+	if storeCap < 64 {
+		storeCap = 64
+	}
+	ms, err := memory.NewStore(&memory.Config{GOMEMLIMITBytes: math.MaxInt64, CapacityBytes: storeCap}, tally.NoopScope)
 	if err != nil {
 		return pbt.Verdict{Discard: true}
+	}
+	if old, err := ms.Create("older", storeCap); err == nil {
+		old.Write(bytes.Repeat([]byte{0xAB}, int(storeCap)))
+		old.Close()
+		ms.MarkComplete("older")
 	}
 	const key = "blob"
 	f, err := ms.Create(key, uint64(c.Cap))
 	if err != nil {
-		return pbt.Fail("memory.Store.Create of a %d-byte blob in an empty 1 MiB store failed: %v", c.Cap, err)
+		return pbt.Fail("memory.Store.Create of a %d-byte blob in a %d-byte store holding one evictable blob failed: %v", c.Cap, storeCap, err)
 	}
 	subs := []subject{{r: f, w: f, wa: f}}
 	for i := 1; i < h; i++ {
